@@ -5,13 +5,13 @@ import time
 from proto import run_driver, diff_streams, split_cases
 
 
-def correspond(lines, impl_run):
+def correspond(lines, impl_run, abs_tol=None):
     t0 = time.time()
     impl_out = impl_run(lines)
     t1 = time.time()
     model_out = run_driver(lines)
     t2 = time.time()
-    bad = diff_streams(lines, impl_out, model_out)
+    bad = diff_streams(lines, impl_out, model_out, abs_tol)
     n_err = sum(1 for o in impl_out if o == "err")
     n_obs = sum(1 for ln in lines if not ln.startswith("case ") and not ln.startswith("dim ")
                 and not ln.startswith("dset "))
